@@ -149,12 +149,22 @@ fn real_decode(s: &str) -> Result<Vec<Mapping>, String> {
 }
 fn wire_ok(bs: &[u8]) -> bool { bs.iter().all(|&b| tbl(b) != 0x42) }
 
+/// what counts as a failing input: "bytes" (C12: output differs from the spec), "wire" (C11/C19: output contains a byte
+/// outside the base64-VLQ alphabet / non-ASCII), "panic" (C17: the real code panics)
+static CRIT: std::sync::OnceLock<String> = std::sync::OnceLock::new();
+pub fn set_crit(c: &str) { let _ = CRIT.set(c.to_string()); }
+fn crit() -> &'static str { CRIT.get().map(|s| s.as_str()).unwrap_or("bytes") }
+
 /// None = agrees; Some(description) = disagreement
 fn check_enc(ms: &[Mapping], lines: bool) -> Option<String> {
   let want = if lines { ref_lines(ms) } else { ref_encode(ms) };
   match real_encode(ms, lines) {
-    Err(p) => Some(format!("real encoder panicked ({p}); spec gives {:?}", String::from_utf8_lossy(&want))),
+    Err(p) => if crit() == "wire" { None } else { Some(format!("real encoder panicked ({p}); spec gives {:?}", String::from_utf8_lossy(&want))) },
     Ok(got) => {
+      if crit() == "panic" { return None; }
+      if crit() == "wire" {
+        return if wire_ok(&got) { None } else { Some(format!("real output {:?} contains bytes outside the base64-VLQ alphabet (spec: {:?})", String::from_utf8_lossy(&got), String::from_utf8_lossy(&want))) };
+      }
       if got != want {
         let back = ref_decode(&got);
         let exp = if lines { ref_lseq(ms) } else { ref_kept(ms) };
@@ -170,7 +180,7 @@ fn check_dec(s: &str) -> Option<String> {
   let want = ref_decode(s.as_bytes());
   match real_decode(s) {
     Err(p) => Some(format!("real decoder panicked ({p}); the format defines [{}]", fmt_ms(&want))),
-    Ok(got) => if got != want { Some(format!("real decoder gives [{}], the format defines [{}]", fmt_ms(&got), fmt_ms(&want))) } else { None },
+    Ok(got) => if crit() == "bytes" && got != want { Some(format!("real decoder gives [{}], the format defines [{}]", fmt_ms(&got), fmt_ms(&want))) } else { None },
   }
 }
 
@@ -262,9 +272,21 @@ pub fn search_dec(args: &[String]) -> i32 {
   let maxlen: usize = args.get(2).and_then(|s| s.parse().ok()).unwrap_or(5);
   let mut tried = 0u64;
   let mut found: Option<(String, String)> = None;
+  // long continuation runs (shift / accumulator limits)
+  for k in 0..24usize {
+    for tail in ["A", "B", "/", "+"] {
+      let s: String = "g".repeat(k) + tail;
+      tried += 1;
+      if found.is_none() { if let Some(d) = check_dec(&s) { found = Some((s, d)); } }
+      let s2: String = "/".repeat(k) + tail + ";AAAA";
+      tried += 1;
+      if found.is_none() { if let Some(d) = check_dec(&s2) { found = Some((s2, d)); } }
+    }
+  }
   // exhaustive over ALPHA^<=maxlen
   let mut idx = vec![0usize; 0];
-  'outer: for len in 0..=maxlen {
+  'outer: for len in 0..=(if found.is_some() { 0 } else { maxlen }) {
+    if found.is_some() { break; }
     idx.clear(); idx.resize(len, 0);
     loop {
       let s: String = idx.iter().map(|&i| ALPHA[i] as char).collect();
